@@ -104,13 +104,14 @@ theorem Rel.removeAll {h : Nat → Nat} {pt po : PTable} {t o : Table} (hr : Rel
   exact removeLoop_sim h po.self po.items o.items ho.kv o.order pt t none po.begin po.size ho.order
     (by rw [ho.size, hio.size_eq]; exact Nat.le_refl _) hr hi
 
-theorem fresh_rel (self : Bool) (cap : Nat) : Rel (PTable.fresh self cap) (Table.fresh cap) := by
+theorem fresh_rel (self : Bool) (cap ipb dcap : Nat) : Rel (PTable.fresh self cap ipb dcap) (Table.fresh cap ipb dcap) := by
   constructor <;> simp [PTable.fresh, Table.fresh, Dll, GSeg, lastB, FreeL]
 
 theorem Rel.copyOf {h : Nat → Nat} {po : PTable} {o : Table} (ho : Rel po o) (hio : o.Inv h) (kind : Kind) (self : Bool) :
     ∃ pt', PTable.copyOf kind h self po = some pt' ∧ Rel pt' (Table.copyOf kind h o) ∧ pt'.self = self := by
   unfold PTable.copyOf Table.copyOf
-  exact (fresh_rel self 500).appendAll ho (fresh_inv h 500 (by decide)) hio kind
+  rw [ho.ipb, ho.dcap]
+  exact (fresh_rel self _ _ _).appendAll ho (fresh_inv h _ _ _ hio.dcap_pos hio.ipb_pos hio.dcap_pos) hio kind
 
 theorem Rel.assignFrom {h : Nat → Nat} {pt po : PTable} {t o : Table} (hr : Rel pt t) (ho : Rel po o)
     (hi : t.Inv h) (hio : o.Inv h) (kind : Kind) :
